@@ -889,6 +889,15 @@ func (e *Eng) condLit(fn *ssa.Function, v ssa.Value, inline bool) Lit {
 			if isIntConst(y, 1) && isLenCall(x) {
 				return Lit{Atom: "(" + c.x(x) + " == 0)", Pos: pos}
 			}
+			// integers: a < b+1  ==  ¬(b < a);   a-1 < b  ==  ¬(b < a)
+			if isIntType(x.Type()) {
+				if yb, ok := y.(*ssa.BinOp); ok && yb.Op == token.ADD && isIntConst(yb.Y, 1) {
+					return Lit{Atom: "(" + c.x(yb.X) + " < " + c.x(x) + ")", Pos: !pos}
+				}
+				if xb, ok := x.(*ssa.BinOp); ok && xb.Op == token.SUB && isIntConst(xb.Y, 1) {
+					return Lit{Atom: "(" + c.x(y) + " < " + c.x(xb.X) + ")", Pos: !pos}
+				}
+			}
 		}
 		return Lit{Atom: "(" + c.x(x) + " " + op.String() + " " + c.x(y) + ")", Pos: pos}
 	}
@@ -911,6 +920,11 @@ func isLenCall(v ssa.Value) bool {
 	}
 	b, ok := c.Call.Value.(*ssa.Builtin)
 	return ok && b.Name() == "len"
+}
+
+func isIntType(t types.Type) bool {
+	b, ok := t.Underlying().(*types.Basic)
+	return ok && b.Info()&types.IsInteger != 0
 }
 
 func isBoolType(t types.Type) bool {
